@@ -178,7 +178,9 @@ Proof.
   pose proof (q_collect_args al c []) as Q. destruct (collect_args c al []) as [c1 la]. cbn [fst] in Q.
   pose proof (ext_log_call c1 (bs "cond") name la) as L.
   destruct (log_call c1 (bs "cond") name la) as [c2 n]. cbn [fst] in *.
-  eapply ext_trans; [apply ext_of_quiet; exact Q|exact L].
+  destruct (p n la) as [b e]. cbn [fst].
+  eapply ext_trans; [apply ext_of_quiet; exact Q|].
+  destruct e; [eapply ext_trans; [exact L|apply ext_of_quiet, q_w_cerr]|exact L].
 Qed.
 
 Lemma ext_run_mods ms : forall c raw, ext c (fst (run_mods U ms c raw)).
